@@ -177,6 +177,23 @@ func runSchedule(t *rapid.T, r *rec.Recorder) {
 			}
 			history = append(history, stepLog{Op: "setReward", Arg: es, Result: res})
 		},
+		"bankSendSwitch": func(t *rapid.T) {
+			// bank's send switches (per denomination and the default; a parameter change like any other) concern transfers made by
+			// users; the release of rewards is a transfer between module accounts and goes on
+			var se []*banktypes.SendEnabled
+			for _, d := range denoms[:4] {
+				switch rapid.IntRange(0, 3).Draw(t, "switch/"+d) {
+				case 0:
+					se = append(se, &banktypes.SendEnabled{Denom: d, Enabled: false})
+				case 1:
+					se = append(se, &banktypes.SendEnabled{Denom: d, Enabled: true})
+				}
+			}
+			def := rapid.IntRange(0, 2).Draw(t, "defaultSendEnabled") != 0
+			app.BankKeeper.SetParams(ctx, banktypes.Params{SendEnabled: se, DefaultSendEnabled: def})
+			r.Label("bank_send_switch_changed")
+			history = append(history, stepLog{Op: "bankSendSwitch", Arg: fmt.Sprintf("%v default=%v", se, def)})
+		},
 		"toggle": func(t *rapid.T) {
 			on := rapid.Bool().Draw(t, "on")
 			bz, _ := json.Marshal(on)
